@@ -155,6 +155,32 @@ def cli_create_identical(case, profile):
         shutil.rmtree(d, ignore_errors=True)
 
 
+def cli_getset_fault(case, profile):
+    """getset of two samples where the destination cannot be written (stdout and -o on /dev/full): the exit status must be non-zero"""
+    exe = ragc_bin(profile)
+    d = tempfile.mkdtemp(prefix="ragc-cli-")
+    try:
+        names = ["a1", "b", "a2"]; files = []
+        for nm, seq in zip(names, case["seqs"]):
+            p = os.path.join(d, nm + ".fa")
+            with open(p, "w") as f:
+                f.write(f">ctg_{nm}\n" + "".join(LETTERS[c] if c < 16 else "X" for c in seq) + "\n")
+            files.append(p)
+        arc = os.path.join(d, "x.agc")
+        r = subprocess.run([exe, "create", "-o", arc] + files, capture_output=True, timeout=300)
+        if r.returncode != 0:
+            return {"error": "create failed"}
+        res = {}
+        r1 = subprocess.run([exe, "getset", arc] + list(case["request"]) + ["-o", "/dev/full"], capture_output=True, timeout=300)
+        with open("/dev/full", "w") as full:
+            r2 = subprocess.run([exe, "getset", arc] + list(case["request"]), stdout=full, stderr=subprocess.PIPE, timeout=300)
+        if b"panicked" in r1.stderr + r2.stderr:
+            return {"panic": (r1.stderr + r2.stderr).decode()[-300:]}
+        return {"ok": r1.returncode != 0 and r2.returncode != 0, "exit_o_dev_full": r1.returncode, "exit_stdout_dev_full": r2.returncode}
+    finally:
+        shutil.rmtree(d, ignore_errors=True)
+
+
 def cli_create_pan_vs_files(case, profile):
     exe = ragc_bin(profile)
     d = tempfile.mkdtemp(prefix="ragc-cli-")
@@ -174,4 +200,4 @@ def cli_create_pan_vs_files(case, profile):
         shutil.rmtree(d, ignore_errors=True)
 
 
-PY_CMDS = {"cli_create_pan_vs_files": cli_create_pan_vs_files, "cli_getset": cli_getset, "cli_create_flags": cli_create_flags, "cli_create_roundtrip": cli_create_roundtrip, "cli_create_identical": cli_create_identical}
+PY_CMDS = {"cli_getset_fault": cli_getset_fault, "cli_create_pan_vs_files": cli_create_pan_vs_files, "cli_getset": cli_getset, "cli_create_flags": cli_create_flags, "cli_create_roundtrip": cli_create_roundtrip, "cli_create_identical": cli_create_identical}
